@@ -800,9 +800,19 @@ class Interp:
                 rest = recv.rest()
                 recv.pos = len(recv.items)
                 recv = ('iter', rest)
+            if isinstance(recv, tuple) and len(recv) == 3 and recv[0] == 'range' and isinstance(recv[1], int) and isinstance(recv[2], int) and \
+                    name in ('rev', 'zip', 'map', 'filter', 'collect', 'count', 'sum', 'enumerate', 'take', 'skip', 'any', 'all', 'for_each', 'into_iter', 'iter'):
+                recv = ('iter', list(range(recv[1], recv[2] + 1)))          # a bounded integer range iterates over its values
             if isinstance(recv, tuple) and len(recv) == 2 and recv[0] == 'iter':
                 xs = recv[1]
                 truth = lambda c, x: bool(self.apply(c, [x]))
+                if name == 'zip' and len(args) == 1:
+                    o = args[0]
+                    ys = o.rest() if isinstance(o, IterObj) else list(o[1]) if isinstance(o, tuple) and len(o) == 2 and o[0] == 'iter' else \
+                        list(range(o[1], o[2] + 1)) if isinstance(o, tuple) and len(o) == 3 and o[0] == 'range' and isinstance(o[1], int) and isinstance(o[2], int) else \
+                        list(o.items) if isinstance(o, VecObj) else list(o) if isinstance(o, (tuple, list, str)) and not (isinstance(o, tuple) and o and o[0] in ('ctor', 'struct', 'closure')) else None
+                    if ys is not None:
+                        return ('iter', list(zip(xs, ys)))
                 if name == 'rev' and not args:
                     return ('iter', list(reversed(xs)))
                 if name == 'enumerate' and not args:
